@@ -270,6 +270,186 @@ def gen_cnf_grid(rng, k, rot):
     return ctx, recipe
 
 
+# ---------------------------------------------------------------------------------------------
+# user-defined terms (funsor.factory.make_funsor): every declaration order of Bound / Funsor / Has / Fresh
+# ---------------------------------------------------------------------------------------------
+
+USER_SRC = '''
+from funsor.factory import make_funsor, Bound, Fresh, Has
+from funsor.terms import Funsor
+import funsor.ops as ops
+
+@make_funsor
+def WS_xiw(x: Funsor, i: Bound, w: Funsor) -> Fresh[lambda x: x]:
+    return (x * w).reduce(ops.add, i)
+
+@make_funsor
+def WS_ixw(i: Bound, x: Funsor, w: Funsor) -> Fresh[lambda x: x]:
+    return (x * w).reduce(ops.add, i)
+
+@make_funsor
+def WS_xwi(x: Funsor, w: Funsor, i: Bound) -> Fresh[lambda x: x]:
+    return (x * w).reduce(ops.add, i)
+
+@make_funsor
+def MA_xiw(x: Funsor, i: Bound, w: Funsor) -> Fresh[lambda x: x]:
+    return (x + w).reduce(ops.max, i)
+
+@make_funsor
+def MA_iwx(i: Bound, w: Funsor, x: Funsor) -> Fresh[lambda x: x]:
+    return (x + w).reduce(ops.max, i)
+
+@make_funsor
+def HS_xiw(x: Has[{"i"}], i: Bound, w: Funsor) -> Fresh[lambda x: x]:
+    return (x * w).reduce(ops.add, i)
+
+@make_funsor
+def HS_ixw(i: Bound, x: Has[{"i"}], w: Funsor) -> Fresh[lambda x: x]:
+    return (x * w).reduce(ops.add, i)
+
+@make_funsor
+def HS_wix(w: Funsor, i: Bound, x: Has[{"i"}]) -> Fresh[lambda x: x]:
+    return (x * w).reduce(ops.add, i)
+
+@make_funsor
+def D2_xijw(x: Funsor, i: Bound, j: Bound, w: Funsor) -> Fresh[lambda x: x]:
+    return (x * w).reduce(ops.add, frozenset([i, j]))
+
+@make_funsor
+def D2_ixjw(i: Bound, x: Funsor, j: Bound, w: Funsor) -> Fresh[lambda x: x]:
+    return (x * w).reduce(ops.add, frozenset([i, j]))
+
+@make_funsor
+def D2_xwij(x: Funsor, w: Funsor, i: Bound, j: Bound) -> Fresh[lambda x: x]:
+    return (x * w).reduce(ops.add, frozenset([i, j]))
+
+@make_funsor
+def RN_xik(x: Funsor, i: Bound, k: Fresh[lambda i: i]) -> Fresh[lambda x: x]:
+    return x(**{i.name: k})
+
+@make_funsor
+def RN_ikx(i: Bound, k: Fresh[lambda i: i], x: Funsor) -> Fresh[lambda x: x]:
+    return x(**{i.name: k})
+
+@make_funsor
+def RS_xikw(x: Funsor, i: Bound, k: Fresh[lambda i: i], w: Funsor) -> Fresh[lambda x: x]:
+    return x(**{i.name: k}) * w
+
+@make_funsor
+def RS_ikwx(i: Bound, k: Fresh[lambda i: i], w: Funsor, x: Funsor) -> Fresh[lambda x: x]:
+    return x(**{i.name: k}) * w
+'''
+USER_NS = {}
+exec(USER_SRC, USER_NS)
+# class -> (parameter order, kind)
+USER_CLASSES = {
+    "WS_xiw": ("x i w", "sum-mul"), "WS_ixw": ("i x w", "sum-mul"), "WS_xwi": ("x w i", "sum-mul"),
+    "MA_xiw": ("x i w", "max-add"), "MA_iwx": ("i w x", "max-add"),
+    "HS_xiw": ("x i w", "sum-mul"), "HS_ixw": ("i x w", "sum-mul"), "HS_wix": ("w i x", "sum-mul"),
+    "D2_xijw": ("x i j w", "sum2-mul"), "D2_ixjw": ("i x j w", "sum2-mul"), "D2_xwij": ("x w i j", "sum2-mul"),
+    "RN_xik": ("x i k", "rename"), "RN_ikx": ("i k x", "rename"),
+    "RS_xikw": ("x i k w", "rename-mul"), "RS_ikwx": ("i k w x", "rename-mul"),
+}
+USER_WRAPS = ["reduceall", "plusz-reduceall", "none", "subs-same-name"]
+USER_GRID = [(wr, c) for wr in USER_WRAPS for c in USER_CLASSES]
+
+
+def user_spec(r):
+    """The defining expression of a user term, as an ordinary recipe (its textbook meaning)."""
+    _, cname, parts = r
+    p = dict(parts)
+    kind = USER_CLASSES[cname][1]
+    if kind == "sum-mul":
+        return ("reduce", "add", ("binary", "mul", p["x"], p["w"]), (p["i"],), ())
+    if kind == "max-add":
+        return ("reduce", "max", ("binary", "add", p["x"], p["w"]), (p["i"],), ())
+    if kind == "sum2-mul":
+        return ("reduce", "add", ("binary", "mul", p["x"], p["w"]), tuple(sorted((p["i"], p["j"]))), ())
+    size = dict(p["x"][1])[p["i"]]
+    ren = ("subs", p["x"], ((p["i"], ("var", p["k"], size)),))
+    if kind == "rename":
+        return ren
+    return ("binary", "mul", ren, p["w"])
+
+
+def build_any(r):
+    """gen_terms.build extended with user terms and `.reduce(op)` over all inputs."""
+    tag = r[0]
+    if tag == "user":
+        _, cname, parts = r
+        p = dict(parts)
+        args = [build_any(p[n]) if n in ("x", "w") else p[n] for n in USER_CLASSES[cname][0].split()]
+        return USER_NS[cname](*args)
+    if tag == "reduceall":
+        return build_any(r[2]).reduce(gen_terms.OPS[r[1]])
+    if tag == "binary":
+        return gen_terms.OPS[r[1]](build_any(r[2]), build_any(r[3]))
+    if tag == "unary":
+        return gen_terms.OPS[r[1]](build_any(r[2]))
+    if tag == "reduce":
+        _, op, a, rv, absent = r
+        vs = frozenset(rv) | frozenset(Variable(n, Bint[s]) for n, s in absent)
+        return build_any(a).reduce(gen_terms.OPS[op], vs)
+    if tag == "subs":
+        a = build_any(r[1])
+        return a(**{k: build_any(v) for k, v in r[2]})
+    return gen_terms.build(r)
+
+
+def has_user(r):
+    if isinstance(r, tuple):
+        return (bool(r) and r[0] in ("user", "reduceall")) or any(has_user(x) for x in r)
+    return False
+
+
+def gen_user_term(rng, k, rot):
+    wrap, cname = USER_GRID[k] if k < len(USER_CLASSES) else USER_GRID[(k + rot) % len(USER_GRID)]
+    order, kind = USER_CLASSES[cname]
+    ctx = gen_ctx(rng)
+    while len(ctx) < 3:
+        ctx[NAMES[len(ctx)]] = rng.choice([2, 3])
+    names = list(ctx)
+    rng.shuffle(names)
+    i, j = names[0], names[1]
+    others = names[2:]
+    bound = [i, j] if kind == "sum2-mul" else [i]
+    xn = sorted(set(bound + [n for n in others if rng.random() < 0.6]))
+    x = gen_terms.gen_tensor(rng, ctx, "real", names=xn)
+    parts = {"x": x, "i": i}
+    if "j" in order.split():
+        parts["j"] = j
+    if "w" in order.split():
+        # (a body must eliminate its Bound variables: the renaming classes bind i only in x)
+        wb = [] if kind.startswith("rename") else [n for n in bound if rng.random() < 0.7]
+        wn = sorted(set(wb + [n for n in others if rng.random() < 0.6]
+                        + ([others[-1]] if others else [])))
+        parts["w"] = gen_terms.gen_tensor(rng, ctx, "real", names=wn)
+    if "k" in order.split():
+        parts["k"] = "q"                               # fresh output name
+    core = ("user", cname, tuple(sorted(parts.items(), key=lambda kv: kv[0])))
+    if wrap == "reduceall":
+        recipe = ("reduceall", rng.choice(["add", "add", "max", "min"]), core)
+    elif wrap == "plusz-reduceall":
+        _, free = recipe_wire(core)
+        zn = [n for n in sorted(free) if free[n] != "real" and rng.random() < 0.6]
+        z = gen_terms.gen_tensor(rng, dict(ctx, q=ctx[i]), "real", names=zn)
+        recipe = ("reduceall", rng.choice(["add", "max"]), ("binary", "add", core, z))
+    elif wrap == "subs-same-name":
+        _, free = recipe_wire(core)
+        cands = [n for n in sorted(free) if n != "q"]
+        if cands:
+            c = rng.choice(cands)
+            # an index tensor that depends on a FREE variable named like the bound one
+            data = np.array([rng.randrange(free[c]) for _ in range(ctx[i])], dtype=np.int64)
+            val = ("tensor", ((i, ctx[i]),), free[c], (), data)
+            recipe = ("subs", core, ((c, val),))
+        else:
+            recipe = core
+    else:
+        recipe = core
+    return ctx, recipe
+
+
 def cases(base_seed, n):
     """The seeded case list: [(ctx, recipe, family, env)]; env binds the free real inputs; the pseudo-binding
     "__approx__" marks expressions with inexact ops (compared after rounding)."""
@@ -277,6 +457,7 @@ def cases(base_seed, n):
     rot = rng.randrange(10 ** 6)
     out = []
     grid0 = 0
+    user0 = 0
     for idx in range(n):
         if idx % 5 == 4:
             ctx, recipe = gen_sum_product(rng)
@@ -284,6 +465,10 @@ def cases(base_seed, n):
         elif idx % 5 == 2:
             ctx, recipe, env = gen_seq_lazy(rng)
             out.append((ctx, recipe, "seq-lazy", env))
+        elif idx % 10 == 0:
+            ctx, recipe = gen_user_term(rng, user0, rot)
+            user0 += 1
+            out.append((ctx, recipe, "user-terms(make_funsor)", {}))
         elif idx % 5 in (1, 3):
             ctx, recipe = gen_cnf_grid(rng, grid0, rot)
             grid0 += 1
@@ -426,6 +611,15 @@ def recipe_wire(r):
             sizes.append(f[r[1]])
             rest.append({k: v for k, v in f.items() if k != r[1]})
         return ["cat", Q(r[1]), Q(r[1]), sizes] + list(ws), _merge({r[1]: sum(sizes)}, *rest)
+    if tag == "user":
+        return recipe_wire(user_spec(r))
+    if tag == "reduceall":
+        wa, fa = recipe_wire(r[2])
+        vs = sorted((n, s) for n, s in fa.items() if s != "real")
+        if not vs:
+            return wa, fa
+        return (["reduce", r[1], wa, [[Q(n), ["bint", int(s)]] for n, s in vs]],
+                {k: v for k, v in fa.items() if v == "real"})
     if tag == "lamget":
         _, name, size, body, idx = r
         wb, fb = recipe_wire(body)
@@ -540,7 +734,7 @@ ALL_CM = ["lazy", "reflect", "normalize", "memoize", "eager", "sequential", "mom
 def build_under(recipe, cms):
     """Build through the public API under the nesting `with cms[0]: with cms[1]: …`."""
     if not cms:
-        return gen_terms.build(recipe)
+        return build_any(recipe)
     with BUILD_CTX[cms[0]]():
         return build_under(recipe, cms[1:])
 
@@ -822,10 +1016,10 @@ def run_case(idx, ctx, recipe, base_seed, env):
     try:
         try:
             with reflect:
-                syn = gen_terms.build(recipe)
+                syn = build_any(recipe)
         except DECLINE:
             with lazy:
-                syn = gen_terms.build(recipe)
+                syn = build_any(recipe)
         out["anf"] = anf_observation(syn)
         out["calls"] = interp_call_observation(syn)
     except DECLINE as e:
